@@ -368,8 +368,15 @@ pub fn write_config(spec: &AppSpec, dir: &Path) -> std::io::Result<(PathBuf, Str
                 model("cs", "2016_CHEVROLET_Volt_Charge_Sustaining.bin", "gallons_gasoline_per_mile")
             ),
         };
+        // the energy model's own units: those of its time model, other ones, or the defaults (the state features carry
+        // the time model's units in every case)
+        let own_units = match speeds.len() % 3 {
+            0 => format!("distance_unit = \"{}\"\ntime_unit = \"{}\"\n", dist_unit, time_unit),
+            1 => "distance_unit = \"kilometers\"\ntime_unit = \"hours\"\n".to_string(),
+            _ => String::new(),
+        };
         t.push_str(&format!(
-            "\n[traversal]\ntype = \"energy_model\"\ngrade_table_input_file = {}\ngrade_table_grade_unit = \"decimal\"\ndistance_unit = \"{du}\"\ntime_unit = \"{tu}\"\nvehicles = [{vehicle}]\n\n[traversal.time_model]\ntype = \"speed_table\"\nspeed_table_input_file = {}\nspeed_unit = \"{su}\"\ndistance_unit = \"{du}\"\ntime_unit = \"{tu}\"\n",
+            "\n[traversal]\ntype = \"energy_model\"\ngrade_table_input_file = {}\ngrade_table_grade_unit = \"decimal\"\n{own_units}vehicles = [{vehicle}]\n\n[traversal.time_model]\ntype = \"speed_table\"\nspeed_table_input_file = {}\nspeed_unit = \"{su}\"\ndistance_unit = \"{du}\"\ntime_unit = \"{tu}\"\n",
             tstr(gp.to_str().unwrap_or("")),
             tstr(p.to_str().unwrap_or("")),
             du = dist_unit,
